@@ -369,7 +369,7 @@ def finish(pid, tier, seed, t0, spec, proof, workers, corr, extra_cov=None, buil
     tie_ok = not corr["mismatches"] and not corr["errors"] and not crashed
     replay = None
     if new_violations:
-        replay = write_replay(pid, {"property": pid, "kind": "failing-input", "violations": new_violations[:20],
+        replay = write_replay(pid, {"property": pid, "kind": "failing-input", "tier": tier, "seed": seed, "violations": new_violations[:20],
                                     "how_to_replay": spec.get("replay_hint", "")})
         lines.append("VIOLATION property=%s replay=%s" % (pid, replay))
         exit_code = 1
@@ -385,7 +385,7 @@ def finish(pid, tier, seed, t0, spec, proof, workers, corr, extra_cov=None, buil
             what["correspondence_errors"] = corr["errors"][:5]
         if crashed:
             what["worker_crash"] = [{"python": r.get("python"), "error": (r.get("error") or "")[-2000:]} for _, r in crashed]
-        replay = write_replay(pid, {"property": pid, "kind": "tie-broken", "detail": what,
+        replay = write_replay(pid, {"property": pid, "kind": "tie-broken", "tier": tier, "seed": seed, "detail": what,
                                     "note": "the direct oracle found no failing input on the implementation"})
         lines.append("VIOLATION property=%s replay=%s no-failing-input-found" % (pid, replay))
         exit_code = 1
@@ -433,9 +433,10 @@ def finish(pid, tier, seed, t0, spec, proof, workers, corr, extra_cov=None, buil
         "assumptions": spec["assumptions"], "wall_s": round(time.time() - t0, 1),
         "violations": len(new_violations) + (1 if exit_code and not new_violations else 0),
     }
-    os.makedirs(os.path.join(VERIF, "evidence"), exist_ok=True)
-    with open(os.path.join(VERIF, "evidence", pid + ".json"), "w") as f:
-        json.dump(ev, f, indent=1, sort_keys=True, default=str)
+    if not os.environ.get("VERIF_NO_EVIDENCE"):    # a --replay run reports, it does not rewrite the evidence
+        os.makedirs(os.path.join(VERIF, "evidence"), exist_ok=True)
+        with open(os.path.join(VERIF, "evidence", pid + ".json"), "w") as f:
+            json.dump(ev, f, indent=1, sort_keys=True, default=str)
     for l in lines:
         log(l)
     log("%s tier=%s proof_ok=%s tie_ok=%s cases=%d violations=%d wall=%.0fs" % (
